@@ -56,7 +56,7 @@ try:
                                shell=True, stdout=subprocess.PIPE)
             meta['suite_with_change'] = p.stdout.decode().strip()[-120:]
         checks = (a.checks or a.prop).split(',')
-        env = dict(os.environ, VERIF_REPO=wt)
+        env = dict(os.environ, VERIF_REPO=wt, VERIF_EVIDENCE_DIR='/tmp/mut_evidence/%s' % os.path.basename(wt), VERIF_REPLAY_DIR='/tmp/mut_replays/%s' % os.path.basename(wt))
         meta.setdefault('checks', {})
         for c in checks:
             t = time.time()
